@@ -1,0 +1,6 @@
+//go:build !verif
+
+package tsdb
+
+// verifGate is a no-op without the verif build tag.
+func verifGate(string) {}
